@@ -144,7 +144,11 @@ impl Parse for EntraitOpt {
             let ident_string = ident.to_string();
 
             match ident_string.as_str() {
-                "Send" => Ok(MaybeSend(SpanOpt(FutureSend(false), span))),
+                // `?Send` / `?Send = true` opt out of the Send bound, `?Send = false` does not
+                "Send" => {
+                    let SpanOpt(maybe_send, span) = parse_eq_bool(input, true, span)?;
+                    Ok(MaybeSend(SpanOpt(FutureSend(!maybe_send), span)))
+                }
                 _ => Err(syn::Error::new(
                     span,
                     format!("Unkonwn entrait option \"{ident_string}\""),
